@@ -60,7 +60,7 @@ def run_c02(rep):
     # passages' own `lk_<P> = dict(_local)` probes) over the globals; passages reached through jumps inside blocks
     n3, ops3 = sizes(rep, (240, 16), (3000, 50))
     families.play_family(rep, n3, ops3, features=dict(params=0.85, shadow=0.7, probes=1.0, one_time=0.6, conds=0.8, block_jumps=0.5,
-                                                       top_jumps=0.2, block_choices=0.5),
+                                                       top_jumps=0.2, block_choices=0.5, hooks=0.6, hook_early=0.7, param_conds=0.5),
                          weights=dict(bad=4, choose=70, undo=8, redo=3, goto=8, read=4, save=1, load=1, fresh=1),
                          oracle_names=["oracle_c02"], known_classes=known_classes("C02") | known_classes("C07"), label="c02-params")
     compile_tie(rep, "c02-compile", dict(one_time=0.6, block_choices=0.7, join=0.5, conds=0.8))
@@ -82,7 +82,7 @@ def run_c04(rep):
     # stories in which variables SHARE objects (ys = xs, a dict holding the list): outside the value semantics of the engine
     # model, so real code only — the undo oracle, and "the same choice taken again after undo gives what it gave before"
     n2, ops2 = sizes(rep, (200, 20), (3000, 80))
-    families.play_family(rep, n2, ops2, features=dict(alias=0.9, hooks=0.3, join=0.3, params=0.3, top_jumps=0.3),
+    families.play_family(rep, n2, ops2, features=dict(alias=0.9, hooks=0.3, join=0.3, params=0.3, top_jumps=0.3, render=0.7),
                          weights=dict(choose=50, bad=3, undo=22, redo=10, goto=2, read=4, save=1, load=1, fresh=1, rechoose=0.6),
                          oracle_names=["oracle_c04"], known_classes=known_classes("C04"), label="c04-alias", model=False)
     # probe: a long run of choices crossing the 50-deep bound, then unwinding it completely
@@ -168,6 +168,8 @@ def run_c05(rep):
     n, ops, pts = sizes(rep, (200, 14, 3), (3000, 40, 6))
     fam_saveload.saveload_family(rep, n, ops, pts, known_classes=known_classes("C05"))
     fam_saveload.session_probes(rep)
+    import fam_codec
+    fam_codec.stdlib_observation_family(rep, sizes(rep, 300, 5000))
     n2, ops2 = sizes(rep, (300, 16), (4000, 40))
     families.play_family(rep, n2, ops2, features=dict(hooks=0.5, join=0.4, params=0.3),
                          weights=dict(choose=50, save=12, load=8, fresh=8, loadbad=4, undo=6, redo=3, goto=4, read=5),
@@ -184,6 +186,7 @@ def run_c06(rep):
     import fam_codec
     n, depth = sizes(rep, (2000, 6), (50000, 12))
     fam_codec.codec_family(rep, n, depth)
+    fam_codec.stdlib_observation_family(rep, sizes(rep, 300, 5000))
     # names bound by import lines are still usable after a load
     src = ("import math\nfrom bardic.stdlib.dice import roll\nfrom bardic.stdlib.economy import Wallet\n"
            ":: Start\n~ w = Wallet(3)\nhi\n+ [go] -> Next\n\n:: Next\n~ w2 = Wallet(math.floor(2.5))\n"
